@@ -288,9 +288,11 @@ func (g *c02DeclGen) customFunc(depth int) map[string]interface{} {
 		if depth < 4 && rapid.IntRange(0, 3).Draw(g.t, g.label("nestcf")) == 0 {
 			inner := g.customFunc(depth + 1)
 			delete(inner, "type")
-			if fn := inner["custom_func"].(map[string]interface{})["name"]; fn == "copy" || fn == "javascript" {
+			if fn := inner["custom_func"].(map[string]interface{})["name"]; fn == "copy" {
 				arg = strArg()
 			} else {
+				// (a javascript argument may evaluate to a number, array or object: the string parameter then rejects
+				// it at run time and the record fails - a failed argument check followed by nested calls)
 				arg = inner
 			}
 		}
